@@ -35,7 +35,8 @@ def tiling_idiom(fn: ast.FunctionDef, req: str) -> tuple[bool, str]:
     lp = loops[0]
     src = {ast.unparse(s.targets[0]): ast.unparse(s.value) for s in ast.walk(fn) if isinstance(s, ast.Assign) and len(s.targets) == 1 and isinstance(s.targets[0], ast.Name) and s.lineno < lp.lineno}
     start, end = f"{req}[0]", f"{req}[1]"
-    calls = [n for n in ast.walk(lp) if isinstance(n, ast.Call) and isinstance(n.func, ast.Attribute) and n.func.attr == "_prepare_file_data_pdu"]
+    calls = [n for n in ast.walk(lp) if isinstance(n, ast.Call) and isinstance(n.func, ast.Attribute) and isinstance(n.func.value, ast.Name) and n.func.value.id == "self"
+             and len(n.args) == 2 and not n.keywords]
     if len(calls) != 1 or len(calls[0].args) != 2:
         return False, "the loop does not build exactly one File Data PDU per iteration from (cursor, chunk)"
     cur, chunk = ast.unparse(calls[0].args[0]), ast.unparse(calls[0].args[1])
@@ -72,9 +73,11 @@ def check(ctx: Ctx, ev: Evidence) -> list[Finding]:
     ev.rule("C08-R4", "(0,0) re-sends the Metadata PDU through the metadata step's own builder", 1)
     ev.rule("C08-R5", "a retransmitted File Data PDU carries what was read at its own offset with the chunk length", 1)
     # ---- R1 syntax tree
-    hr = prog.functions.get(SRC + ".__handle_retransmission")
-    if hr is None:
-        raise AnalysisError("__handle_retransmission not found")
+    # anchor by content: the function of the source handler that casts the inserted packet to a NAK PDU
+    entries = [f for f in prog.functions.values() if f.cls == SRC and any(isinstance(n, ast.Call) and isinstance(n.func, ast.Attribute) and n.func.attr == "to_nak_pdu" for n in ast.walk(f.node))]
+    if len(entries) != 1:
+        raise AnalysisError(f"NAK servicing entry not found ({len(entries)} functions call to_nak_pdu)")
+    hr = entries[0]
     from ..astq import CallGraph
     cg = CallGraph(prog)
     reach = cg.reachable([hr.qualname])
@@ -109,14 +112,23 @@ def check(ctx: Ctx, ev: Evidence) -> list[Finding]:
             out.append(Finding("C08-R1", f"source handler | segment request validation | no comparison of {' and '.join(sorted(nd))}",
                                f"a NAK segment request is served without comparing {' and '.join(sorted(nd))}: data outside the sent range can be re-sent", loc(hr, hr.node)))
     # ---- R2 idiom
-    hs = prog.functions.get(SRC + "._handle_segment_req")
-    if hs is None:
-        raise AnalysisError("_handle_segment_req not found")
-    req = hs.params[1]
-    ok, why = tiling_idiom(hs.node, req)
-    ev.inst("C08-R2", f"_handle_segment_req: {why}", "ok" if ok else "violation", loc(hs, hs.node))
-    if not ok:
-        out.append(Finding("C08-R2", f"{hs.qualname} | chunking loop | {why[:100]}", f"the retransmission loop is not a tiling of the requested range: {why}", loc(hs, hs.node)))
+    # anchor by content: functions reachable from the NAK entry that loop and take the segment request as parameter
+    loopers = []
+    for q in sorted(reach):
+        f = prog.functions.get(q)
+        if f is None or f.cls != SRC or f is hr or len(f.params) < 2:
+            continue
+        if any(isinstance(n, (ast.While, ast.For)) for n in ast.walk(f.node)) and any(
+                isinstance(n, ast.Subscript) and isinstance(n.value, ast.Name) and n.value.id == f.params[1] for n in ast.walk(f.node)):
+            loopers.append(f)
+    if not loopers:
+        raise AnalysisError("no chunking loop over a segment request found behind the NAK servicing entry")
+    for hs in loopers:
+        req = hs.params[1]
+        ok, why = tiling_idiom(hs.node, req)
+        ev.inst("C08-R2", f"{hs.name}: {why}", "ok" if ok else "violation", loc(hs, hs.node))
+        if not ok:
+            out.append(Finding("C08-R2", f"{hs.qualname} | chunking loop | {why[:100]}", f"the retransmission loop is not a tiling of the requested range: {why}", loc(hs, hs.node)))
     # ---- ATS rules
     a = ctx.ats("source")
     h = a.h
@@ -130,6 +142,7 @@ def check(ctx: Ctx, ev: Evidence) -> list[Finding]:
         if not ok:
             out.append(Finding(rule, f"source handler | {k[:150]}", msg, site, witness_of(a, e)))
 
+    md_sites = {x.site for e in a.edges if e.label != ("state_machine", "NAK") for x in e.ev if x.kind == "pdu" and x.name == "METADATA"}
     for e in a.edges:
         evs = e.ev
         if e.label == ("state_machine", "NAK"):
@@ -144,8 +157,10 @@ def check(ctx: Ctx, ev: Evidence) -> list[Finding]:
                 continue
             i = retr[0]
             # R3: stores on the retransmission path
-            bad = [x for x in evs if x.kind == "store" and x.name in ("_SourceFileParams.progress", "_SourceFileParams.file_size", "_TransferFieldWrapper.cond_code_eof")
-                   and x.func.split(".")[-1] in ("__handle_retransmission", "_handle_segment_req", "_prepare_file_data_pdu", "_prepare_metadata_pdu", "_check_segment_req")]
+            first_re = next((j for j, y in enumerate(evs) if y.kind == "env" and y.name == "vfs.read_data" and "pkt.segment_requests" in repr(y.args[1])), None)
+            first_md = next((j for j, y in enumerate(evs) if y.kind == "pdu" and y.name == "METADATA"), None)
+            begin = min([j for j in (first_re, first_md) if j is not None], default=i)
+            bad = [x for x in evs[begin:i + 1] if x.kind == "store" and x.name in ("_SourceFileParams.progress", "_SourceFileParams.file_size", "_TransferFieldWrapper.cond_code_eof")]
             rep("C08-R3", f"retransmission path stores to progress / file size / EOF condition: {[x.name for x in bad][:2]}", not bad,
                 f"serving a NAK modifies {bad[0].name if bad else ''}: the source does not resume where it was", e, bad[0].site if bad else "")
             saved = [x for x in evs[:i + 1] if x.kind == "store" and x.name == "_AckedModeParams.step_before_retransmission"]
@@ -156,8 +171,9 @@ def check(ctx: Ctx, ev: Evidence) -> list[Finding]:
                 f"the step interrupted by the retransmission ({step_then}) is not saved (saved: {ename(saved[-1].args[0]) if saved else None})", e, evs[i].site)
             # R4/R5 on the retransmitted PDUs
             for j, x in enumerate(evs):
-                if x.kind == "pdu" and x.name == "METADATA" and x.func.endswith("_prepare_metadata_pdu"):
-                    rep("C08-R4", "Metadata re-sent by _prepare_metadata_pdu (the metadata step's builder)", True, "", e, x.site)
+                if x.kind == "pdu" and x.name == "METADATA":
+                    same_builder = x.site in md_sites
+                    rep("C08-R4", f"Metadata re-sent by the metadata step's own builder: {same_builder}", same_builder, "a (0,0) request re-sends a Metadata PDU built by other code than the original one", e, x.site)
                 if x.kind == "pdu" and x.name == "FD":
                     p: Pdu = x.args[0]
                     rd = [y for y in evs[:j] if y.kind == "env" and y.name == "vfs.read_data"]
@@ -175,8 +191,7 @@ def check(ctx: Ctx, ev: Evidence) -> list[Finding]:
             ok = bool(st) and ename(st[0].args[0]) == want
             rep("C08-R3", f"leaving RETRANSMITTING restores the saved step {want}: {ok}", ok, f"after a retransmission the step becomes {ename(st[0].args[0]) if st else None} instead of the saved {want}", e, st[0].site if st else "")
     # the saved step is consumed only while RETRANSMITTING (syntax tree): every read of it is guarded by step == RETRANSMITTING
-    adv = prog.functions.get(SRC + "._fsm_advancement_after_packets_were_sent")
-    if adv is not None:
+    for adv in [f for f in prog.functions.values() if f.cls == SRC]:
         for n in ast.walk(adv.node):
             if isinstance(n, ast.Assign) and "step_before_retransmission" in ast.unparse(n.value):
                 g = [ast.unparse(x) for x, pol in guards_of(adv.node, n) if pol]
